@@ -50,7 +50,7 @@ inductive Api where
   | stringVal (s : String)
   | boolVal (b : Bool)
   | nullVal (t : String)
-  | unknownVal (t : String)
+  | unknownVal (t : String) (r : String)
   | listVal (g : Nat)
   | tupleVal (g : Nat)
   | objectVal (g : Nat)
@@ -109,6 +109,7 @@ inductive Caller where
   | newTypes (ts : List TySrc)
   | newTypeMap (kts : List (String × TySrc))
   | nilPath
+  | elemPath (g i : Nat)                   -- p := paths[i] (a []cty.Path the caller got from PathSet.List)
   | setFloat (g : Nat) (n : Int)           -- bf.SetInt64(n)
   | setElem (g i v : Nat)                  -- s[i] = vals[v]
   | setElemType (g i : Nat) (t : TySrc)    -- tys[i] = t
@@ -213,11 +214,12 @@ def iterElems (m : Mem) (t v : Word) (perm : List Nat) : Option (Mem × List (Wo
       | .s k => some (.pair tString (.str k), .pair e kv.2)
       | _ => none)
   | .tobject (.map ta), .map a =>
+    -- the iterator ranges over the attribute names of the TYPE (sorted) and reads vals[name]
     match kvsOf m a, kvsOf m ta with
-    | some kvs, some tkvs => some (m, kvs.filterMap fun kv =>
-      match kv.1, kvLookup kv.1 tkvs with
-      | .s k, some ty => some (.pair tString (.str k), .pair ty kv.2)
-      | _, _ => none)
+    | some kvs, some tkvs => some (m, tkvs.filterMap fun tkv =>
+      match tkv.1 with
+      | .s k => some (.pair tString (.str k), .pair tkv.2 ((kvLookup tkv.1 kvs).getD .null))
+      | _ => none)
     | _, _ => none
   | .tset e, .set a =>
     match setMembers m a with
@@ -239,7 +241,7 @@ def lengthOf (m : Mem) (t v : Word) : Option Nat :=
 def walkChildren (m : Mem) (t v : Word) : Mem × List (Word × Word) :=
   let v := unwrap v
   match v with
-  | .null | .unk => (m, [])
+  | .null | .unk _ => (m, [])
   | _ =>
     match t with
     | .tobject _ =>
@@ -289,7 +291,7 @@ def stepApi (st : St) : Api → Option St
   | .stringVal s => some (st.pushVal tString (.str s))
   | .boolVal b => some (st.pushVal tBool (.bool b))
   | .nullVal t => some (st.pushVal (.tprim t) .null)
-  | .unknownVal t => some (st.pushVal (.tprim t) .unk)
+  | .unknownVal t r => some (st.pushVal (.tprim t) (.unk r))
   -- ListVal(vals): rawList := make([]interface{}, len(vals)); rawList[i] = val.v
   | .listVal g => do
     let s ← st.go g
@@ -332,7 +334,7 @@ def stepApi (st : St) : Api → Option St
     let (ts, vs) ← splitPairs cells
     let (m0, _) := alloc st.mem .lib (.array vs)        -- rawList
     let (m1, a) := setNew m0 .lib
-    let m2 ← setAddAll m1 a vs hs
+    let m2 ← setAddAll equivW m1 a vs hs
     pure ((st.withMem m2).pushVal (.tset (elemType ts)) (.set a))
   -- SetValFromValueSet(s): rawVal := s.s.Copy()
   | .setValFromValueSet g => do
@@ -375,7 +377,7 @@ def stepApi (st : St) : Api → Option St
       | _ => []
     let (m0, kes) ← iterElems st.mem t p perm
     let (m1, a) := setNew m0 .helper
-    let m2 ← setAddAll m1 a (kes.map fun ke => match ke.2 with
+    let m2 ← setAddAll equivW m1 a (kes.map fun ke => match ke.2 with
       | .pair _ x => x
       | x => x) hs
     pure ((st.withMem m2).pushGo (.pair ety (.set a)))
@@ -490,17 +492,17 @@ def stepApi (st : St) : Api → Option St
   | .vsAdd g v h => do
     let .pair _ (.set a) ← st.go g | none
     let (_, p) ← st.val v
-    let m ← setAdd st.mem a p h
+    let m ← setAdd equivW st.mem a p h
     pure (st.withMem m)
   | .vsRemove g v h => do
     let .pair _ (.set a) ← st.go g | none
     let (_, p) ← st.val v
-    let m ← setRemove st.mem a p h
+    let m ← setRemove equivW st.mem a p h
     pure (st.withMem m)
   | .vsHas g v h => do
     let .pair _ (.set a) ← st.go g | none
     let (_, p) ← st.val v
-    let b ← setHas st.mem a p h
+    let b ← setHas equivW st.mem a p h
     pure (st.pushOut (boolTok b))
   | .vsCopy g => do
     let .pair ety (.set a) ← st.go g | none
@@ -571,12 +573,12 @@ def stepApi (st : St) : Api → Option St
     let m0 := match pw with
       | .slice arr _ _ _ => if ownerOf st.mem arr == some .caller then freeze st.mem arr else st.mem
       | _ => st.mem
-    let m ← setAdd m0 a pw h
+    let m ← setAdd equivPath m0 a pw h
     pure (st.withMem m)
   | .psHas g p h => do
     let .set a ← st.go g | none
     let pw ← st.go p
-    let b ← setHas st.mem a pw h
+    let b ← setHas equivPath st.mem a pw h
     pure (st.pushOut (boolTok b))
   -- PathSet.List(): a fresh []Path whose elements are the member slices themselves
   | .psList g perm => do
@@ -632,6 +634,13 @@ def stepCaller (st : St) : Caller → Option St
     let (m, a) := alloc st.mem .caller (.gomap (es.foldl (fun acc e => kvInsert e.1 e.2 acc) []))
     pure ((st.withMem m).pushGo (.map a))
   | .nilPath => some (st.pushGo .null)
+  | .elemPath g i => do
+    let s ← st.go g
+    let cells ← sliceElems st.mem s
+    match cells[i]? with
+    | some (.slice a o l c) => pure (st.pushGo (.slice a o l c))
+    | some .null => pure (st.pushGo .null)
+    | _ => none
   | .setFloat g n => do
     let .num a ← st.go g | none
     let _ ← floatOf st.mem a
